@@ -236,6 +236,18 @@ func RunTotal(cfg *TotalConfig) (*Report, error) {
 							cmds = append(cmds, batch.NewCmd(len(cmds), c.prog.ID, typ, mode, d).WithPrior(prior))
 							pend = append(pend, totalPend{c: c, typ: typ, mode: mode, raw: d, prior: prior, label: lbl[i] + "+prior"})
 						}
+						if typ != rootTypeOf(c) && len(subs) > 0 {
+							// prior destination for nested types: sub-values of valid documents; those that decode into
+							// this type give a non-zero destination (maps, slices, structs), the others leave it zero
+							for k := 0; k < 2; k++ {
+								pv := jsonx.Marshal(subs[(i*3+k*7+1)%len(subs)])
+								if len(pv) < 3 {
+									continue
+								}
+								cmds = append(cmds, batch.NewCmd(len(cmds), c.prog.ID, typ, mode, d).WithPrior(pv))
+								pend = append(pend, totalPend{c: c, typ: typ, mode: mode, raw: d, prior: pv, label: lbl[i] + "+prior"})
+							}
+						}
 					}
 				}
 			}
